@@ -127,12 +127,17 @@ def declare(U, data_sort=ANY, with_size=True):
         # reference: remove node (index k) then insert it at index j of the shortened sequence
         return "insert_at(remove_at(old(self.s), old(self.pos[node])), %s, node)" % j
 
-    def ghost_reinsert(m, j):
-        # the ghost sequence was already shortened by the callee remove() (unless the operation returned early);
-        # re-insert the node at index j of the current ghost sequence
-        removed = "len(self.s) != old(len(self.s))"
-        m.ghost_exit("self.pos = ite(%s, lam(n, ite(n == node, %s, shift_ins(self.pos[n], %s))), self.pos)" % (removed, j, j))
-        m.ghost_exit("self.s = ite(%s, insert_at(self.s, %s, node), self.s)" % (removed, j))
+    def ghost_reinsert(m, j, unless=None):
+        # reference result computed from the PRE-state only (independent of how the implementation gets there):
+        # remove node (index k), then insert it at index j of the shortened sequence
+        k = "old(self.pos[node])"
+        se = "insert_at(remove_at(old(self.s), %s), %s, node)" % (k, j)
+        pe = "lam(n, ite(n == node, %s, shift_ins(shift_del(old(self.pos)[n], %s), %s)))" % (j, k, j)
+        if unless:
+            se = "ite(%s, old(self.s), %s)" % (unless, se)
+            pe = "ite(%s, old(self.pos), %s)" % (unless, pe)
+        m.ghost_exit("self.s = " + se)
+        m.ghost_exit("self.pos = " + pe)
 
     m = L.method("move_to_front", {"node": RefS(NODE)})
     m.requires("inlist(self, node)", "node-belongs-to-the-list")
@@ -154,7 +159,7 @@ def declare(U, data_sort=ANY, with_size=True):
     m.requires("inlist(self, node) and inlist(self, after)", "both-nodes-belong-to-the-list")
     m.modifies("self.head", "self.tail", "self.size", "self.s", "self.pos", NODE + ".next_node[*]", NODE + ".prev_node[*]")
     j = "(shift_del(old(self.pos[after]), old(self.pos[node])) + 1)"
-    ghost_reinsert(m, j)
+    ghost_reinsert(m, j, unless="node == after")
     m.ensures("implies(node == after, self.s == old(self.s))", "node-is-after:unchanged")
     m.ensures("implies(node != after, self.s == %s)" % moved(j), "s'=node-directly-after-`after`")
     m.ensures("forall(n, implies(old(inlist(self, n)), inlist(self, n)))", "same-node-set")
